@@ -650,6 +650,14 @@ func (c *Compiler) structFieldCode(structCode *StructCode, tag *runtime.StructTa
 		isNilableType: c.isNilableType(fieldType),
 		isNilCheck:    true,
 	}
+	if fieldCode.isAnonymous && (tag.IsOmitEmpty || tag.IsString) {
+		// the members of an embedded struct are members of the outer struct: the options
+		// of the embedding itself ( `json:",omitempty"` ) have no effect, as in encoding/json
+		plain := *tag
+		plain.IsOmitEmpty = false
+		plain.IsString = false
+		fieldCode.tag = &plain
+	}
 	switch {
 	case c.isMovePointerPositionFromHeadToFirstMarshalJSONFieldCase(fieldType, isIndirectSpecialCase):
 		code, err := c.marshalJSONCode(fieldType)
